@@ -51,6 +51,9 @@ type Input struct {
 	Formats []string      `json:"formats"`        // groups, lines, trie, tree
 	Upload  []string      `json:"upload"`         // remote, direct
 	Tags    string        `json:"tags"`           // "" or "{k=v,...}" (older corpus files)
+	// StartTime / EndTime of the upload jobs as nanosecond offsets from the start of the 10 s slot (both 0: the whole slot)
+	JobStart int64        `json:"job_start_ns,omitempty"`
+	JobEnd   int64        `json:"job_end_ns,omitempty"`
 	AppX    string        `json:"appx,omitempty"` // suffix of the application name: characters that are significant in URLs
 	TagKV   [][2]string   `json:"tagkv,omitempty"` // structured tags (used instead of Tags when present)
 	Slot    int           `json:"slot"`           // which 10 s window
@@ -254,6 +257,33 @@ func gen(r *rand.Rand, idx int, tier string) Input {
 		if lib.Chance(r, 0.2) {
 			in.Upload = append(in.Upload, "direct")
 		}
+	}
+	// job times as a session produces them: start = time of the last reset (any nanosecond), end usually on a boundary
+	const sec = int64(time.Second)
+	switch r.Intn(5) {
+	case 0: // whole slot
+	case 1: // last second of the slot, sub-second part >= 500 ms
+		in.JobStart = 9*sec + sec/2 + r.Int63n(sec/2)
+	case 2: // x.5 .. x.999 of any second
+		in.JobStart = int64(r.Intn(10))*sec + sec/2 + r.Int63n(sec/2)
+	case 3: // last second, sub-second part < 500 ms
+		in.JobStart = 9*sec + r.Int63n(sec/2)
+	default:
+		in.JobStart = r.Int63n(10 * sec)
+	}
+	switch r.Intn(4) {
+	case 0, 1: // end on the slot boundary
+		in.JobEnd = 10 * sec
+	case 2: // inside the slot, after the start
+		in.JobEnd = in.JobStart + 1 + r.Int63n(10*sec-in.JobStart)
+	default: // same second as the start, or x.999999999
+		in.JobEnd = in.JobStart + 1
+		if lib.Chance(r, 0.5) {
+			in.JobEnd = 10*sec - 1
+		}
+	}
+	if in.JobEnd <= in.JobStart {
+		in.JobEnd = 10 * sec
 	}
 	in.AppX = lib.Pick(r, appSuffixes)
 	if lib.Chance(r, 0.5) {
@@ -460,7 +490,7 @@ func run(in Input) (res lib.Result) {
 			msItems[i] = lib.Pair(cbytes(s.Key), lib.N(s.V))
 		}
 		coq := "{| c_ms := " + lib.List(msItems) + "; c_text_ok := false; c_meta := None; c_groups := None; c_lines := None; c_trie := None; c_tree := None; " +
-			"c_job := None; c_series := None; c_remote := None; c_direct := None; c_go_groups := None; c_go_lines := None; c_raw := " +
+			"c_job := None; c_job_ns := None; c_remote_slots := []; c_direct_slots := []; c_series := None; c_remote := None; c_direct := None; c_go_groups := None; c_go_lines := None; c_raw := " +
 			lib.Some("("+cbytes(in.Raw)+", "+parseGroupsGo(in.Raw)+", "+parseLinesGo(in.Raw)+")") +
 			"; c_raw_groups := " + rg + "; c_raw_lines := " + rl + " |}"
 		return lib.Result{Coq: coq, NonTrivial: false, Feat: map[string]interface{}{"class": "raw", "raw_len": len(in.Raw), "raw_with_intent": len(in.MS) > 0}}
@@ -563,6 +593,26 @@ func run(in Input) (res lib.Result) {
 			"; sn_body := " + lib.Bytes(body) + "; sn_stored := " + e.readBack(name, st, et, rec.Code) + " |}")
 	}
 
+	jst, jet := st.Add(time.Duration(in.JobStart)), st.Add(time.Duration(in.JobEnd))
+	if in.JobStart == 0 && in.JobEnd == 0 {
+		jet = et
+	}
+	jobNs := none
+	remoteSlots, directSlots := "[]", "[]"
+	slotDump := func(name string) string {
+		sk, _ := storage.ParseKey(name)
+		items := []string{}
+		for _, d := range []int{-10, 0, 10} {
+			a := st.Add(time.Duration(d) * time.Second)
+			out, _ := e.st.Get(&storage.GetInput{StartTime: a, EndTime: a.Add(10 * time.Second), Key: sk})
+			tr := none
+			if out != nil && out.Tree != nil {
+				tr = lib.Some(coqTree(out.Tree.VerifDump()))
+			}
+			items = append(items, lib.Pair(lib.N(uint64(a.Unix())), tr))
+		}
+		return lib.List(items)
+	}
 	jobCoq, remoteCoq, directCoq, seriesCoq := none, none, none, none
 	if len(in.TagKV) > 0 || in.Tags == "" {
 		items := make([]string, len(in.TagKV))
@@ -573,7 +623,7 @@ func run(in Input) (res lib.Result) {
 	}
 	if in.Meta != nil && len(in.Upload) > 0 {
 		mkJob := func(name string) *upstream.UploadJob {
-			return &upstream.UploadJob{Name: name, StartTime: st, EndTime: et, SpyName: in.Meta.Spy, SampleRate: in.Meta.Rate,
+			return &upstream.UploadJob{Name: name, StartTime: jst, EndTime: jet, SpyName: in.Meta.Spy, SampleRate: in.Meta.Rate,
 				Units: in.Meta.Units, AggregationType: in.Meta.Agg, Trie: mkTrie()}
 		}
 		for _, u := range in.Upload {
@@ -590,21 +640,25 @@ func run(in Input) (res lib.Result) {
 				q, ct := e.lastQ, e.lastCT
 				e.mu.Unlock()
 				// the name differs per upload path; the job record carries the remote one
-				jobCoq = lib.Some("{| j_name := " + lib.Bytes([]byte(name)) + "; j_start := " + lib.N(uint64(st.Unix())) +
-					"; j_end := " + lib.N(uint64(et.Unix())) + "; j_spy := " + lib.Bytes([]byte(in.Meta.Spy)) +
+				jobCoq = lib.Some("{| j_name := " + lib.Bytes([]byte(name)) + "; j_start := " + lib.N(uint64(jst.Unix())) +
+					"; j_end := " + lib.N(uint64(jet.Unix())) + "; j_spy := " + lib.Bytes([]byte(in.Meta.Spy)) +
 					"; j_rate := " + lib.N(uint64(in.Meta.Rate)) + "; j_units := " + lib.Bytes([]byte(in.Meta.Units)) +
 					"; j_aggregation := " + lib.Bytes([]byte(in.Meta.Agg)) + " |}")
+				jobNs = lib.Some(lib.Pair(lib.N(uint64(jst.UnixNano())), lib.N(uint64(jet.UnixNano()))))
+				remoteSlots = slotDump(name)
 				remoteCoq = lib.Some("(" + coqQuery(q) + ", " + lib.Bytes([]byte(ct)) + ", " + e.readBack(name, st, et, status) + ")")
 			case "direct":
 				name := base + ".direct" + tags
 				e.dir2.Upload(mkJob(name))
 				e.waitDirect(strings.TrimSpace(base+".direct"+in.AppX), st, et)
 				if jobCoq == none {
-					jobCoq = lib.Some("{| j_name := " + lib.Bytes([]byte(name)) + "; j_start := " + lib.N(uint64(st.Unix())) +
-						"; j_end := " + lib.N(uint64(et.Unix())) + "; j_spy := " + lib.Bytes([]byte(in.Meta.Spy)) +
+					jobCoq = lib.Some("{| j_name := " + lib.Bytes([]byte(name)) + "; j_start := " + lib.N(uint64(jst.Unix())) +
+						"; j_end := " + lib.N(uint64(jet.Unix())) + "; j_spy := " + lib.Bytes([]byte(in.Meta.Spy)) +
 						"; j_rate := " + lib.N(uint64(in.Meta.Rate)) + "; j_units := " + lib.Bytes([]byte(in.Meta.Units)) +
 						"; j_aggregation := " + lib.Bytes([]byte(in.Meta.Agg)) + " |}")
 				}
+				jobNs = lib.Some(lib.Pair(lib.N(uint64(jst.UnixNano())), lib.N(uint64(jet.UnixNano()))))
+				directSlots = slotDump(name)
 				directCoq = lib.Some(e.readBack(name, st, et, 200))
 			}
 		}
@@ -632,7 +686,7 @@ func run(in Input) (res lib.Result) {
 	}
 	coq := "{| c_ms := " + treeu.CoqStacks(in.MS) + "; c_text_ok := " + lib.Bool(textok) + "; c_meta := " + metaCoq +
 		"; c_groups := " + sentCoq["groups"] + "; c_lines := " + sentCoq["lines"] + "; c_trie := " + sentCoq["trie"] +
-		"; c_tree := " + sentCoq["tree"] + "; c_job := " + jobCoq + "; c_series := " + seriesCoq + "; c_remote := " + remoteCoq + "; c_direct := " + directCoq +
+		"; c_tree := " + sentCoq["tree"] + "; c_job := " + jobCoq + "; c_job_ns := " + jobNs + "; c_remote_slots := " + remoteSlots + "; c_direct_slots := " + directSlots + "; c_series := " + seriesCoq + "; c_remote := " + remoteCoq + "; c_direct := " + directCoq +
 		"; c_go_groups := " + goGroups + "; c_go_lines := " + goLines + "; c_raw := None; c_raw_groups := None; c_raw_lines := None |}"
 
 	// features: prefix structure
@@ -676,7 +730,7 @@ func run(in Input) (res lib.Result) {
 		NonTrivial: nonBoundary || prefixOf,
 		Feat: map[string]interface{}{"class": in.Class, "formats": strings.Join(in.Formats, ","), "upload": strings.Join(in.Upload, ","),
 			"non_boundary_prefix": nonBoundary, "prefix_of_another": prefixOf, "repeats": repeats, "count_magnitude": mag,
-			"meta_omitted": in.Meta == nil, "stacks": len(in.MS), "by_content_type": in.UseCT, "tags": len(in.TagKV), "app_suffix": in.AppX},
+			"meta_omitted": in.Meta == nil, "stacks": len(in.MS), "by_content_type": in.UseCT, "tags": len(in.TagKV), "app_suffix": in.AppX, "job_start_9th_second_ge_500ms": in.JobStart >= 9500000000, "job_end_on_boundary": in.JobEnd == 10000000000 || in.JobEnd == 0},
 	}
 }
 
